@@ -118,6 +118,56 @@ Definition install (F: fam) (st: state) (c: cid) (m: mname) (d: option did) (x: 
       end
   end.
 
+(* on-demand compilation of the nested dataclasses of method m of class c (pack.py 234-262, unpack.py
+   696-727): a nested class is compiled iff it does not define the method itself, unless it is the class
+   being compiled by a builder without encoder/decoder *)
+Fixpoint deps_with (bld: state -> cid -> mname -> state * option exc) (c: cid) (m: mname)
+         (fs: list field) (st: state) : state * option exc :=
+  match fs with
+  | [] => (st, None)
+  | f :: r =>
+      let m' := nested m (f_spec f) in
+      match get_slot st (f_cls f) m' with
+      | Some _ => deps_with bld c m r st
+      | None =>
+          if Nat.eqb (f_cls f) c && negb (m_top m) then deps_with bld c m r st
+          else match bld st (f_cls f) m' with
+               | (st', None) => deps_with bld c m r st'
+               | (st', Some e) => (st', Some e)
+               end
+      end
+  end.
+
+Inductive dres := DRun (k: meth) | DExc (e: exc) | DOOF.
+Inductive vtree := V (kids: list (nat * vtree)).
+Inductive tr := Node (c: cid) (m: mname) (d: option did) (kids: list tr).
+Inductive outcome := Out (t: tr) | Exc (e: exc) | OOF.
+Inductive op := Define (c: cid) | Call (c: cid) (m: mname) (d: option did) (x: vtree).
+
+(* the body compiled for class kc, method km, dialect kd runs on the nested dataclass values [l]
+   (pairs: index of the dataclass-valued position, value): one nested call per value, in order *)
+Section Go.
+  Context (callf : vtree -> state -> cid -> mname -> option did -> state * outcome).
+  Context (F: fam) (kc: cid) (km: mname) (kd: option did).
+  Fixpoint go (l: list (nat * vtree)) (st: state) (acc: list tr) {struct l} : state * outcome :=
+    match l with
+    | [] => (st, Out (Node kc km kd (rev acc)))
+    | iv :: r =>
+        match iv with
+        | (i, v) =>
+          match nth_error (c_fields (cls F kc)) i with
+          | None => go r st acc
+          | Some f =>
+              let d' := if c_dsup (cls F kc) && c_dsup (cls F (f_cls f)) then kd else None in
+              match callf v st (f_cls f) (nested km (f_spec f)) d' with
+              | (st', Out t) => go r st' (t :: acc)
+              | (st', o) => (st', o)
+              end
+          end
+        end
+    end.
+End Go.
+
 Section Build.
   Variable F : fam.
   Variable d5 : bool.     (* true = fix D5 present: `and self.dialect is None` in the lazy condition *)
@@ -133,30 +183,13 @@ Section Build.
       else if unresolved F st c then
         (if ap then install F st c m d (Stub c m) else (st, Some EUnresolved))
       else
-        let fix deps (fs: list field) (st: state) : state * option exc :=
-          match fs with
-          | [] => (st, None)
-          | f :: r =>
-              let m' := nested m (f_spec f) in
-              match get_slot st (f_cls f) m' with
-              | Some _ => deps r st
-              | None =>
-                  if Nat.eqb (f_cls f) c && negb (m_top m) then deps r st
-                  else match build n' st true (f_cls f) m' d with
-                       | (st', None) => deps r st'
-                       | (st', Some e) => (st', Some e)
-                       end
-              end
-          end in
-        match deps (c_fields cd) st with
+        match deps_with (fun st c' m' => build n' st true c' m' d) c m (c_fields cd) st with
         | (st1, None) => install F st1 c m d (Compiled c m d)
         | (st1, Some e) => (st1, Some e)
         end
     end.
 
   Definition bfuel : nat := S (S (length F + length F)).
-
-  Inductive dres := DRun (k: meth) | DExc (e: exc) | DOOF.
 
   (* what a call  cls.m(..., dialect=d)  does until a real body is reached *)
   Fixpoint dispatch (fuel: nat) (st: state) (c: cid) (m: mname) (d: option did) {struct fuel} : state * dres :=
@@ -203,35 +236,13 @@ Section Build.
       end
     end.
 
-  Inductive vtree := V (kids: list (nat * vtree)).
-  Inductive tr := Node (c: cid) (m: mname) (d: option did) (kids: list tr).
-  Inductive outcome := Out (t: tr) | Exc (e: exc) | OOF.
-
   (* a public or nested call of method m of class c with dialect d on input x *)
   Fixpoint call (fuel: nat) (x: vtree) {struct x} : state -> cid -> mname -> option did -> state * outcome :=
     fun st c m d =>
     match x with
     | V kids =>
       match dispatch fuel st c m d with
-      | (st1, DRun (Compiled kc km kd)) =>
-          let fix go (l: list (nat * vtree)) (st: state) (acc: list tr) {struct l} : state * outcome :=
-            match l with
-            | [] => (st, Out (Node kc km kd (rev acc)))
-            | iv :: r =>
-                match iv with
-                | (i, v) =>
-                  match nth_error (c_fields (cls F kc)) i with
-                  | None => go r st acc
-                  | Some f =>
-                      let d' := if c_dsup (cls F kc) && c_dsup (cls F (f_cls f)) then kd else None in
-                      match call fuel v st (f_cls f) (nested km (f_spec f)) d' with
-                      | (st', Out t) => go r st' (t :: acc)
-                      | (st', o) => (st', o)
-                      end
-                  end
-                end
-            end in
-          go kids st1 []
+      | (st1, DRun (Compiled kc km kd)) => go (call fuel) F kc km kd kids st1 []
       | (st1, DRun (Stub _ _)) => (st1, OOF)      (* unreachable: dispatch never returns a stub *)
       | (st1, DExc e) => (st1, Exc e)
       | (st1, DOOF) => (st1, OOF)
@@ -254,8 +265,6 @@ Section Build.
         | (st1, Some e) => (st1, Some e)
         end
     end.
-
-  Inductive op := Define (c: cid) | Call (c: cid) (m: mname) (d: option did) (x: vtree).
 
   Definition step (fuel: nat) (st: state) (o: op) : state * outcome :=
     match o with
